@@ -5,11 +5,11 @@ package main
 // ops:   case N                          fresh swamp
 //        set KEY TYPE VAL C U E          Gateway.Set of one key; TYPE ∈ c07Types; VAL is the rank of the
 //                                        value inside its type (see c07Value); C/U/E = CreatedAt /
-//                                        UpdatedAt / ExpiredAt in seconds, 0 = field absent
+//                                        UpdatedAt / ExpiredAt in nanoseconds, 0 = field absent
 //        del KEY                         Gateway.Delete
 //        q IDX ORD FROM LIMIT FT TT VIA  Gateway.GetByIndex (VIA=u) or GetByIndexStream without
 //                                        filters (VIA=s); IDX ∈ key|created|updated|expire|<value type>;
-//                                        ORD ∈ asc|desc; FT/TT seconds or '-'
+//                                        ORD ∈ asc|desc; FT/TT nanoseconds or '-'
 // reply: ok | err                        for set / del
 //        r k1,k2,…  | err | nilnil       for q: the keys exactly in the order the gateway returned them
 //
@@ -20,9 +20,11 @@ import (
 	"context"
 	"fmt"
 	"math/rand"
+	"os"
 	"strconv"
 	"strings"
 
+	"github.com/hydraide/hydraide/app/core/settings"
 	"github.com/hydraide/hydraide/app/name"
 	hydrapb "github.com/hydraide/hydraide/sdk/go/hydraidego/v3/hydraidepbgo"
 	"google.golang.org/grpc/metadata"
@@ -52,35 +54,37 @@ func c07IndexType(s string) (hydrapb.IndexType_Type, bool) {
 // the produced values is the order of the ranks (floats: rank/2, strings: fixed width).
 func c07Value(kv *hydrapb.KeyValuePair, typ string, v int64) bool {
 	switch typ {
+	// (+1 everywhere: a zero-like typed value would come back as void after a reload, which is
+	// C05's subject, not this one's)
 	case "i8":
-		x := int32(int8(v))
+		x := int32(int8(v*3 + 1))
 		kv.Int8Val = &x
 	case "i16":
-		x := int32(int16(v * 100))
+		x := int32(int16(v*100 + 1))
 		kv.Int16Val = &x
 	case "i32":
-		x := int32(v * 100000)
+		x := int32(v*100000 + 1)
 		kv.Int32Val = &x
 	case "i64":
-		x := v * 10000000000
+		x := v * c07I64Step // (IncrementInt64 adds multiples of the step; the generator keeps int64 ranks off 0)
 		kv.Int64Val = &x
 	case "u8":
-		x := uint32(uint8(v))
+		x := uint32(uint8(v*3 + 1))
 		kv.Uint8Val = &x
 	case "u16":
-		x := uint32(uint16(v * 1000))
+		x := uint32(uint16(v*1000 + 1))
 		kv.Uint16Val = &x
 	case "u32":
-		x := uint32(v * 100000000)
+		x := uint32(v*100000000 + 1)
 		kv.Uint32Val = &x
 	case "u64":
-		x := uint64(v) * 1000000000000
+		x := uint64(v)*1000000000000 + 1
 		kv.Uint64Val = &x
 	case "f32":
-		x := float32(v) / 2
+		x := float32(v)/2 + 0.25
 		kv.Float32Val = &x
 	case "f64":
-		x := float64(v) / 2
+		x := float64(v)/2 + 0.25
 		kv.Float64Val = &x
 	case "str":
 		x := fmt.Sprintf("s%03d", v+500)
@@ -100,9 +104,14 @@ func c07Value(kv *hydrapb.KeyValuePair, typ string, v int64) bool {
 	return true
 }
 
+const c07I64Step = 10000000000
+
 func c07Unsigned(t string) bool { return strings.HasPrefix(t, "u") }
 
 func c07Rank(rng *rand.Rand, typ string) int64 {
+	if typ == "i64" {
+		return 96 + int64(rng.Intn(9))
+	}
 	v := int64(rng.Intn(9)) - 4
 	if c07Unsigned(typ) || typ == "bool" {
 		v = int64(rng.Intn(7))
@@ -110,11 +119,15 @@ func c07Rank(rng *rand.Rand, typ string) int64 {
 	return v
 }
 
+// timestamps are nanoseconds since the epoch: whole seconds 1..9 plus a nanosecond part that is
+// usually 0 (so that equal timestamps stay frequent) and sometimes 1 or 999999999
+var c07Nanos = []int64{0, 0, 0, 0, 1, 999999999}
+
 func c07TS(rng *rand.Rand, pAbsent int) int64 {
 	if rng.Intn(100) < pAbsent {
 		return 0
 	}
-	return int64(1 + rng.Intn(9))
+	return int64(1+rng.Intn(9))*1000000000 + c07Nanos[rng.Intn(len(c07Nanos))]
 }
 
 func c07GenQuery(rng *rand.Rand, w *bufio.Writer, idx string) {
@@ -130,10 +143,10 @@ func c07GenQuery(rng *rand.Rand, w *bufio.Writer, idx string) {
 	ft, tt := "-", "-"
 	if rng.Intn(5) < 3 {
 		if rng.Intn(4) != 0 {
-			ft = strconv.Itoa(rng.Intn(11))
+			ft = strconv.FormatInt(int64(rng.Intn(11))*1000000000+c07Nanos[rng.Intn(len(c07Nanos))], 10)
 		}
 		if rng.Intn(4) != 0 {
-			tt = strconv.Itoa(1 + rng.Intn(11))
+			tt = strconv.FormatInt(int64(1+rng.Intn(11))*1000000000+c07Nanos[rng.Intn(len(c07Nanos))], 10)
 		}
 	}
 	via := []string{"u", "s"}[rng.Intn(2)]
@@ -163,8 +176,17 @@ func c07Gen(rng *rand.Rand, tier string, w *bufio.Writer) {
 	// 8: windows, paging, ties on a sound index
 	fmt.Fprintln(w, "case 8\nset k1 i64 1 3 0 0\nset k2 i64 2 3 0 0\nset k3 i64 3 5 0 0\nset k4 i64 3 7 0 0\nq created asc 0 0 3 7 u\nq created desc 0 0 3 7 u\nq created asc 1 2 - 8 u\nq created desc 1 1 4 - s\nq created asc 0 0 7 3 u\nq key desc 1 2 - - u\nq expire asc 0 0 - - u")
 
-	for c := 9; c < cases; c++ {
-		fmt.Fprintf(w, "case %d\n", c)
+	// 9: sub-second parts decide: records at 3s, 3s+1ns, 3s+999999999ns, 4s; windows on those instants
+	fmt.Fprintln(w, "case 9\nset k1 i64 1 3000000000 0 0\nset k2 i64 2 3000000001 0 0\nset k3 i64 3 3999999999 0 0\nset k4 i64 4 4000000000 0 0\nset k5 i64 5 3000000000 0 0\nq created asc 0 0 3000000001 4000000000 u\nq created desc 0 0 3000000000 3999999999 u\nq created asc 0 0 3000000000 3000000001 s\nq created desc 0 0 3999999999 - u\nq created asc 0 0 - 3000000001 u")
+	// 10: Increment moves an int64 value and the expiry inside built indexes; a reload drops them
+	fmt.Fprintln(w, "case 10p\nset k1 i64 1 1000000000 0 0\nset k2 i64 2 2000000000 0 3000000000\nq i64 asc 0 0 - - u\nq expire asc 0 0 - - u\ninc k1 3 5000000000\ninc k3 1 0\nq i64 asc 0 0 - - u\nq expire desc 0 0 - - u\nreload\nq i64 desc 0 0 - - u\nq created asc 0 0 - - u\nset k1 i64 0 9000000000 0 0\nq created asc 0 0 - - u\nq expire asc 0 0 - - u\nshiftexp\nq key asc 0 0 - - u\nshiftexp")
+	for c := 11; c < cases; c++ {
+		persistent := c%3 == 0
+		if persistent {
+			fmt.Fprintf(w, "case %dp\n", c)
+		} else {
+			fmt.Fprintf(w, "case %d\n", c)
+		}
 		theme := rng.Intn(10)
 		// type palette of the case
 		var types []string
@@ -175,6 +197,14 @@ func c07Gen(rng *rand.Rand, tier string, w *bufio.Writer) {
 			types = []string{"i64"}
 		default: // mixed
 			types = []string{c07Types[rng.Intn(len(c07Types))], c07Types[rng.Intn(len(c07Types))], "i64"}
+		}
+		if persistent {
+			// bool false / void are zero-like on disk (C05): keep them out of cases that reload
+			for i, t := range types {
+				if t == "bool" || t == "void" {
+					types[i] = "i64"
+				}
+			}
 		}
 		nKeys := 3 + rng.Intn(8)
 		pAbsent := []int{0, 15, 50}[rng.Intn(3)]
@@ -190,22 +220,75 @@ func c07Gen(rng *rand.Rand, tier string, w *bufio.Writer) {
 		n := 6 + rng.Intn(maxLen)
 		pUpdateMeta := rng.Intn(3) // 0: updates carry no time fields; else they do
 		live := map[string]bool{}
+		incSum := map[string]int{} // keys created by Increment → sum of their increments
+		// On a persistent swamp a key is not written again after it was deleted: delete → re-create →
+		// delete inside one write interval loses the final delete (the key is back after a reload) — a
+		// durability defect of the write buffer, reported to C05/C16, not this property's subject.
+		retired := map[string]bool{}
+		pick := func() (string, bool) {
+			for try := 0; try < 8; try++ {
+				k := fmt.Sprintf("k%02d", rng.Intn(nKeys))
+				if !retired[k] {
+					return k, true
+				}
+			}
+			return "", false
+		}
 		for i := 0; i < n; i++ {
 			r := rng.Intn(100)
 			switch {
 			case r < 45 || len(live) == 0:
-				k := fmt.Sprintf("k%02d", rng.Intn(nKeys))
+				k, okk := pick()
+				if !okk {
+					continue
+				}
 				typ := types[rng.Intn(len(types))]
 				cT, uT, eT := c07TS(rng, pAbsent), c07TS(rng, pAbsent), c07TS(rng, 60)
 				if live[k] && pUpdateMeta == 0 {
 					cT, uT, eT = 0, 0, 0
 				}
 				live[k] = true
+				delete(incSum, k)
 				fmt.Fprintf(w, "set %s %s %d %d %d %d\n", k, typ, c07Rank(rng, typ), cT, uT, eT)
 			case r < 55:
 				k := fmt.Sprintf("k%02d", rng.Intn(nKeys))
 				delete(live, k)
+				delete(incSum, k)
+				if persistent {
+					retired[k] = true
+				}
 				fmt.Fprintf(w, "del %s\n", k)
+			case r < 60:
+				// IncrementInt64 (creates the key, increments int64 content in place, fails on other types)
+				k, okk := pick()
+				if !okk {
+					continue
+				}
+				d := rng.Intn(5) - 2 // 0 now and then: the gateway refuses it
+				if _, byInc := incSum[k]; byInc || !live[k] {
+					// a key made by Increment holds a multiple of the step: keep it off 0 (zero-like on disk, C05)
+					if incSum[k]+d == 0 && d != 0 {
+						d++
+					}
+					if d != 0 {
+						incSum[k] += d
+						live[k] = true
+					}
+				}
+				fmt.Fprintf(w, "inc %s %d %d\n", k, d, c07TS(rng, 60))
+			case r < 62 && persistent:
+				fmt.Fprintln(w, "reload")
+			case r < 64:
+				// ShiftExpiredTreasures: every timestamp of the run is in the past, so this returns the
+				// whole expiration index in order and deletes those records
+				fmt.Fprintln(w, "shiftexp")
+				for k := range live {
+					if persistent {
+						retired[k] = true
+					}
+					delete(live, k) // (the generator does not track which keys carry an expiry: be conservative)
+					delete(incSum, k)
+				}
 			default:
 				idx := focus[rng.Intn(len(focus))]
 				if rng.Intn(12) == 0 {
@@ -244,7 +327,7 @@ func c07TSpb(v int64) *timestamppb.Timestamp {
 	if v == 0 {
 		return nil
 	}
-	return &timestamppb.Timestamp{Seconds: v}
+	return &timestamppb.Timestamp{Seconds: v / 1000000000, Nanos: int32(v % 1000000000)}
 }
 
 func c07OptTS(s string) (*timestamppb.Timestamp, bool) {
@@ -256,16 +339,23 @@ func c07OptTS(s string) (*timestamppb.Timestamp, bool) {
 		return nil, false
 	}
 	// an explicit zero bound is a real bound (the Unix epoch), not "absent"
-	return &timestamppb.Timestamp{Seconds: v}, true
+	return &timestamppb.Timestamp{Seconds: v / 1000000000, Nanos: int32(v % 1000000000)}, true
 }
 
 func c07Run(in *bufio.Scanner, w *bufio.Writer) {
+	// the persistent storage path prints diagnostics with fmt.Println; `w` already holds the real
+	// stdout, so everything else that writes to os.Stdout goes to the bin
+	if null, err := os.OpenFile(os.DevNull, os.O_WRONLY, 0); err == nil {
+		os.Stdout = null
+	}
 	rig, err := NewRig(3, 2000, 3600, 0)
 	if err != nil {
 		panic(err)
 	}
 	defer rig.Stop(true)
 	rig.Settings.RegisterPattern(name.New().Sanctuary("c07").Realm("*").Swamp("*"), true, 3600, nil)
+	rig.Settings.RegisterPattern(name.New().Sanctuary("c07p").Realm("*").Swamp("*"), false, 3600,
+		&settings.FileSystemSettings{WriteIntervalSec: 1, MaxFileSizeByte: 8192})
 	ctx := context.Background()
 	swampName := ""
 	for in.Scan() {
@@ -279,8 +369,52 @@ func c07Run(in *bufio.Scanner, w *bufio.Writer) {
 			}()
 			switch {
 			case f[0] == "case" && len(f) == 2:
-				swampName = name.New().Sanctuary("c07").Realm("idx").Swamp("case" + f[1]).Get()
+				if strings.HasSuffix(f[1], "p") { // a swamp on disk, so that it can be closed and loaded again
+					swampName = name.New().Sanctuary("c07p").Realm("idx").Swamp("case" + f[1]).Get()
+				} else {
+					swampName = name.New().Sanctuary("c07").Realm("idx").Swamp("case" + f[1]).Get()
+				}
 				return line
+			case f[0] == "inc" && len(f) == 4:
+				dl, e1 := strconv.ParseInt(f[2], 10, 64)
+				eT, e2 := strconv.ParseInt(f[3], 10, 64)
+				if e1 != nil || e2 != nil {
+					return "bad-op"
+				}
+				var meta *hydrapb.IncrementRequestMetadata
+				if eT != 0 {
+					meta = &hydrapb.IncrementRequestMetadata{ExpiredAt: c07TSpb(eT)}
+				}
+				resp, err := rig.GW.IncrementInt64(ctx, &hydrapb.IncrementInt64Request{IslandID: 1, SwampName: swampName, Key: f[1],
+					IncrementBy: dl * c07I64Step, SetIfNotExist: meta, SetIfExist: meta})
+				if err == nil && resp == nil {
+					return "nilnil"
+				}
+				return "ok" // a content type other than int64 is an error and changes nothing
+			case f[0] == "shiftexp" && len(f) == 1:
+				resp, err := rig.GW.ShiftExpiredTreasures(ctx, &hydrapb.ShiftExpiredTreasuresRequest{IslandID: 1, SwampName: swampName, HowMany: 0})
+				if err != nil {
+					return "err " + c07ErrClass(err)
+				}
+				if resp == nil {
+					return "nilnil"
+				}
+				var keys []string
+				for _, t := range resp.GetTreasures() {
+					keys = append(keys, t.GetKey())
+				}
+				return "r " + strings.Join(keys, ",")
+			case f[0] == "reload" && len(f) == 1:
+				nm := name.Load(swampName)
+				if ok, err := rig.Zeus.GetHydra().IsExistSwamp(1, nm); err != nil || !ok {
+					return "ok"
+				}
+				sw, err := rig.Zeus.GetHydra().SummonSwamp(ctx, 1, nm)
+				if err != nil {
+					return "err"
+				}
+				sw.Close()
+				return "ok"
 			case f[0] == "set" && len(f) == 7:
 				kv := &hydrapb.KeyValuePair{Key: f[1]}
 				v, e1 := strconv.ParseInt(f[3], 10, 64)
